@@ -245,6 +245,7 @@ def check_case(case):
                              data=dict(data_con, msg=str(e)[:300], n_ref=len(ref), stage=obs.build_stage)))
             return res
         seen = {}
+        spec_choices = {c['id']: c for c in spec['choices']}
         for rec in obs.records:
             if rec['exc'] is not None:
                 if ref:
@@ -260,6 +261,17 @@ def check_case(case):
                 break
             for v in linked_dv_violations(obs.b, spec, rec):
                 res.add(v)
+            # the corrected vector describes the instance: every active selection variable names the wired option
+            sel_edges = {e for e, _ in rec['ident'][1]}
+            for i, m in enumerate(obs.des_vars):
+                if m['kind'] == 'sel' and rec['active'][i] and m.get('options') is not None:
+                    c = spec_choices.get(m['node'])
+                    if c is not None and (c['origin'], m['options'][int(rec['x_corr'][i])]) not in sel_edges:
+                        res.add(viol('vector_names_other_option',
+                                     f'{mode} x={rec["x"]} x_corr={rec["x_corr"]}: {m["name"]}={rec["x_corr"][i]} names '
+                                     f'{m["options"][int(rec["x_corr"][i])]} but the instance wires {sorted(sel_edges)}',
+                                     data=dict(data_con)))
+                        break
             if len(res.violations) > 40:
                 break
         if obs.exhaustive and not res.violations:
